@@ -222,7 +222,7 @@ PresenceOK(s, D) == \A i \in DOMAIN s.props : RuleOK(s.props[i], D)
 \* zero value of a by-value struct field
 ZeroOf(fk) ==
     CASE fk = "int" -> I64(0)
-      [] fk = "string" -> Str("#empty")
+      [] fk \in {"string", "string_bytes", "string_runes"} -> Str("#empty")
       [] fk = "bool" -> B(FALSE)
       [] fk = "float" -> F64(0)
       [] fk = "named" -> S("named", "#empty")
@@ -230,7 +230,10 @@ ZeroOf(fk) ==
       [] fk = "map_string_int" -> M("typed", <<>>)
 FieldZero(s, p) ==
     LET f == FieldOf(s.layout, p.name) IN
-    IF Nullable(f) THEN None ELSE IF f.fk \in {"sub", "wide"} THEN Some(ZeroStruct(p.type)) ELSE Some(ZeroOf(f.fk))
+    IF Nullable(f) THEN None
+    ELSE IF f.fk \in {"sub", "wide"} THEN Some(ZeroStruct(p.type))
+    ELSE IF f.fk = "named" /\ p.type.kind = "string" THEN Some(Str("#empty"))   \* a plain string schema sees the string it converts to
+    ELSE Some(ZeroOf(f.fk))
 ZeroStruct(s) == Struct(s.layout, [i \in DOMAIN s.props |-> <<s.props[i].name, FieldZero(s, s.props[i])>>])
 
 \* the native value of an object from the (optional) native value of each property
